@@ -1210,7 +1210,8 @@ def search(ctx: C.Ctx, disagreements, broken) -> List[C.Failing]:
     big = C.Ctx(ctx.prop, "thorough", ctx.seed + 1, random.Random(), ctx.t0, ctx.jobs)
     out = oracle(big, C.Coverage())
     if not out:
-        out = c11.oracle(big, C.Coverage())
+        known = {k["sig"] for k in C.load_known("C11")}
+        out = [f for f in c11.oracle(big, C.Coverage()) if f.sig not in known]
     return out
 
 
